@@ -72,6 +72,7 @@ impl InnerProductArgPC {
         res is Ok ==> (forall|i: int| 0 <= i < polynomials@.len() ==> ipa_commit_one(ck, (#[trigger] polynomials@[i]), &res->Ok_0.0@[i], &res->Ok_0.1@[i],
             (if rng is Some { old(rng->Some_0).id@ } else { 0 }), (if rng is Some { old(rng->Some_0).pos@ } else { 0 }) + ipa_draws(polynomials@, i as nat))),   // name=ipa.commit.commitments_are_key_defined_linear_maps_with_fresh_blinding props=C08,C07,C01
         (res is Ok && rng is None) ==> (forall|i: int| 0 <= i < polynomials@.len() ==> (#[trigger] polynomials@[i]).hiding_bound is None),   // name=ipa.commit.hiding_without_rng_never_succeeds props=C07,C17
+        res is Err ==> (exists|i: int| 0 <= i < polynomials@.len() && !ipa_admissible(ck, #[trigger] polynomials@[i])),   // name=ipa.commit.only_out_of_domain_requests_are_refused props=C17,C01
 //@body
 //@rw * /&mut crate::optional_rng::OptionalRng\(rng\)/ => &mut optional_rng_wrap(rng)
 //@rw * /label\.to_string\(\)/ => string_to_string(label)
